@@ -20,3 +20,19 @@ package parser
 //@   ensures true
 //@   modifies nothing
 //@   trusted generated ANTLR recogniser (table-driven); its effect on the error listeners is modelled at the Walk call
+
+// terminal accessors of the call contexts (C03): which terminal node is returned (uninterpreted, by token class)
+//@ func (*MethodCallContext).DOTTEDNAME
+//@   ensures result == termNode(s, 1)
+//@   modifies nothing
+//@   trusted generated accessor (GetToken over the children)
+
+//@ func (*ThreeLevelCallContext).DOUBLEDOTTEDNAME
+//@   ensures result == termNode(s, 2)
+//@   modifies nothing
+//@   trusted generated accessor (GetToken over the children)
+
+//@ func (*FunctionCallContext).SIMPLENAME
+//@   ensures result == termNode(s, 3)
+//@   modifies nothing
+//@   trusted generated accessor (GetToken over the children)
